@@ -11,14 +11,41 @@ import BdModel.Proofs.LockMutex
 namespace BdModel.P16
 open BdModel.Lock
 
+/-- an agent is executing the commands of its schedule (steps or handlers) -/
+def executing (ag : Agent) : Bool := ag.pc == .steps || ag.pc == .handlers
+
+/-- **C16, whatever the path is called (the lock is on the file, not on its name).**  In every reachable
+    world (any interleaving, kills included) two different agents of the same DAG file (same inode) that
+    can open it are never both at a lock-holding program counter — from the probe up to the unlock after
+    the final status write — hence never both executing steps or handlers.  This uses the lock table only:
+    it holds for ANY socket names, i.e. also when the file is reached through a symlinked directory,
+    a symlink or a hard link and the two agents therefore use different sockets. -/
+theorem C16_lock_exclusive (w : World) (hw : Reach w) (a b : Nat) (hab : a ≠ b)
+    (hd : (w.agents a).dag = (w.agents b).dag)
+    (ha : (w.agents a).canOpen = true) (hb : (w.agents b).canOpen = true) :
+    ¬ (holdsLock (w.agents a).pc = true ∧ holdsLock (w.agents b).pc = true) ∧
+    ¬ (executing (w.agents a) = true ∧ executing (w.agents b) = true) := by
+  have key : ¬ (holdsLock (w.agents a).pc = true ∧ holdsLock (w.agents b).pc = true) := by
+    intro ⟨h1, h2⟩
+    have l1 := reach_lockInv hw a ha h1
+    have l2 := reach_lockInv hw b hb h2
+    rw [hd, l2] at l1
+    injection l1 with e
+    exact hab e.symm
+  refine ⟨key, fun ⟨h1, h2⟩ => key ⟨?_, ?_⟩⟩
+  · cases hpc : (w.agents a).pc <;> simp_all [executing, holdsLock]
+  · cases hpc : (w.agents b).pc <;> simp_all [executing, holdsLock]
+
 /-- **C16 at full strength — mutual exclusion under EVERY interleaving.**  For every configuration,
     every interleaving (kills included) and every two different agents of one DAG file all of whose
-    agents can open the file (so take the lock): never are both between "passed the already-running
-    check" and "endpoint closed" (`inRegion`: history set-up, unlink, bind, listen, steps, handlers,
-    final write, unlock, close) — hence never both in mid-run (commands started, endpoint not closed). -/
+    agents can open the file (so take the lock) and reach it under one spelling of its path (so use one
+    socket name): never are both between "passed the already-running check" and "endpoint closed"
+    (`inRegion`: history set-up, unlink, bind, listen, steps, handlers, final write, unlock, close) —
+    hence never both in mid-run (commands started, endpoint not closed). -/
 def C16_full : Prop :=
   ∀ (cfgs : List Cfg) (tr : List (Nat × Act)) (w : World), run (init cfgs) tr = some w →
     ∀ a b, a ≠ b → (w.agents a).dag = (w.agents b).dag → OpenDag w (w.agents a).dag →
+      OneSpelling w (w.agents a).dag (w.agents a).sock →
       ¬ (inRegion (w.agents a).pc = true ∧ inRegion (w.agents b).pc = true) ∧
       ¬ (midRun (w.agents a) = true ∧ midRun (w.agents b) = true)
 
@@ -29,8 +56,8 @@ theorem midRun_region (ag : Agent) (h : midRun ag = true) : inRegion ag.pc = tru
     the lock; at most one agent in the region; the agent holding the endpoint owns a bound listening
     socket; bind always finds the path free). -/
 theorem C16_full_holds : C16_full := by
-  intro cfgs tr w hrun a b hab hd hopen
-  have hex := (reach_excl ⟨cfgs, tr, hrun⟩ _ hopen).one a b hab rfl hd.symm
+  intro cfgs tr w hrun a b hab hd hopen hkey
+  have hex := (reach_excl ⟨cfgs, tr, hrun⟩ _ _ hopen hkey).one a b hab rfl hd.symm
   exact ⟨hex, fun ⟨ha, hb⟩ => hex ⟨midRun_region _ ha, midRun_region _ hb⟩⟩
 
 /-- **C16 (sequential part).**  In every reachable world (whatever the agents can open): if agent `b`
@@ -44,7 +71,7 @@ theorem C16_full_holds : C16_full := by
     * and whatever happens afterwards, `b` never acts again: its record stays frozen (so all its
       counters stay 0) and no later action of any interleaving is `b`'s. -/
 theorem C16_sequential (w : World) (hw : Reach w) (a b : Nat)
-    (hA : w.ns (w.agents b).dag = .bound a true) (hb : (w.agents b).pc = .probe) :
+    (hA : w.ns (w.agents b).sock = .bound a true) (hb : (w.agents b).pc = .probe) :
     ∃ w', step w b .probe = some w' ∧
       (w'.agents b).pc = .refused ∧ Pristine (w'.agents b) ∧
       w'.ns = w.ns ∧ (∀ c, c ≠ b → w'.agents c = w.agents c) ∧
@@ -81,25 +108,27 @@ theorem C16_refused_pristine (w : World) (hw : Reach w) (b : Nat) (h : (w.agents
 /-- **C16 (no loser of a bind race any more — F20b).**  For a DAG file all of whose agents can open it,
     `bind` never fails in any reachable world: no agent is ever on the bind-failure path, so an agent
     that has recorded a run (history operations > 0) is one that passed the check and bound its socket. -/
-theorem C16_bind_never_fails (w : World) (hw : Reach w) (a : Nat) (hopen : OpenDag w (w.agents a).dag) :
+theorem C16_bind_never_fails (w : World) (hw : Reach w) (a : Nat) (hopen : OpenDag w (w.agents a).dag)
+    (hkey : OneSpelling w (w.agents a).dag (w.agents a).sock) :
     failing (w.agents a).pc = false ∧
-    ((w.agents a).pc = .bind → w.ns (w.agents a).dag = .absent) :=
-  ⟨(reach_excl hw _ hopen).nofail a rfl, (reach_excl hw _ hopen).bnd a rfl⟩
+    ((w.agents a).pc = .bind → w.ns (w.agents a).sock = .absent) :=
+  ⟨(reach_excl hw _ _ hopen hkey).nofail a rfl, (reach_excl hw _ _ hopen hkey).bnd a rfl⟩
 
 /-- **the endpoint is really there.**  For such a file, the agent between `listen` and the close of its
     listener owns a bound, listening socket — so every probe by another agent of the file is answered
     (and refused, `C16_sequential`), and an agent past its lock holds the lock. -/
-theorem C16_endpoint_and_lock (w : World) (hw : Reach w) (a : Nat) (hopen : OpenDag w (w.agents a).dag) :
-    (holding (w.agents a).pc = true → w.ns (w.agents a).dag = .bound a true) ∧
+theorem C16_endpoint_and_lock (w : World) (hw : Reach w) (a : Nat) (hopen : OpenDag w (w.agents a).dag)
+    (hkey : OneSpelling w (w.agents a).dag (w.agents a).sock) :
+    (holding (w.agents a).pc = true → w.ns (w.agents a).sock = .bound a true) ∧
     (holdsLock (w.agents a).pc = true → w.lk (w.agents a).dag = some a) :=
-  ⟨(reach_excl hw _ hopen).hold a rfl, (reach_excl hw _ hopen).lockOk a rfl⟩
+  ⟨(reach_excl hw _ _ hopen hkey).hold a rfl, (reach_excl hw _ _ hopen hkey).lockOk a rfl⟩
 
 /-- **what "bound" means.**  In every reachable world a bound socket path belongs to an agent of that
     DAG file which is alive between its `bind` and the close of its listener; when the socket is
     listening that agent's schedule is under way (steps, handlers, final status write, unlock, about
     to close). -/
 theorem C16_bound_means_active (w : World) (hw : Reach w) (d a : Nat) (l : Bool) (h : w.ns d = .bound a l) :
-    (w.agents a).dag = d ∧ ownerOk l (w.agents a).pc = true ∧ alive (w.agents a).pc = true := by
+    (w.agents a).sock = d ∧ ownerOk l (w.agents a).pc = true ∧ alive (w.agents a).pc = true := by
   have ho := reach_owner hw d a l h
   refine ⟨ho.1, ho.2, ?_⟩
   have h2 := ho.2
@@ -107,8 +136,9 @@ theorem C16_bound_means_active (w : World) (hw : Reach w) (d a : Nat) (l : Bool)
 
 /-- An action of one agent never changes another agent's record, nor the socket or the lock of another DAG file. -/
 theorem C16_locality (w w' : World) (a : Nat) (act : Act) (h : step w a act = some w') :
-    (∀ b, b ≠ a → w'.agents b = w.agents b) ∧ (∀ e, e ≠ (w.agents a).dag → w'.ns e = w.ns e ∧ w'.lk e = w.lk e) :=
-  ⟨fun b hb => step_other h b hb, fun e he => ⟨step_ns_other h e he, step_lk_other h e he⟩⟩
+    (∀ b, b ≠ a → w'.agents b = w.agents b) ∧ (∀ e, e ≠ (w.agents a).sock → w'.ns e = w.ns e) ∧
+    (∀ e, e ≠ (w.agents a).dag → w'.lk e = w.lk e) :=
+  ⟨fun b hb => step_other h b hb, fun e he => step_ns_other h e he, fun e he => step_lk_other h e he⟩
 
 /-! ### what remains when the DAG file cannot be opened -/
 
@@ -139,6 +169,24 @@ example : (run (init [{ dag := 0, steps := 2 }, { dag := 0, steps := 2 }]) (by_ 
     (fun w => verdict (w.agents 1)) = some (.refused, 0, 0, 0, 0) := by decide
 example : run (init [{ dag := 0, steps := 2 }, { dag := 0, steps := 2 }]) wTrace = none := by
   simp [run, wTrace, by_, upToProbe, histOps, step, stepAg, init, fresh, setAgent, setLk]
+
+/-! ### the same file under two spellings of its path -/
+
+/-- agent 0 starts the file through its plain path (socket 0), agent 1 through a link (socket 1): same `dag` -/
+def lCfgs : List Cfg := [{ dag := 0, steps := 1, sock := 0 }, { dag := 0, steps := 1, sock := 1 }]
+
+/-- while agent 0 is anywhere from its probe to its final write, agent 1 is refused by the lock although its
+    own socket name is free -/
+example : (run (init lCfgs) (by_ 0 (upToProbe ++ histOps ++ [.unlink, .bind, .listen, .execStep]) ++
+      by_ 1 [.setup true, .precond true, .lock])).map (fun w => (verdict (w.agents 1), w.ns 1)) =
+    some ((.refused, 0, 0, 0, 0), .absent) := by decide
+
+/-- why `C16_full` asks for one spelling: once agent 0 has written its final status and released the lock,
+    agent 1 (other socket name: its probe finds nothing) may start while agent 0 is still closing its
+    listener — both are "in the region", but agent 0 executes nothing any more (`C16_lock_exclusive`). -/
+example : (run (init lCfgs) (by_ 0 (upToProbe ++ histOps ++ [.unlink, .bind, .listen, .execStep, .finalWrite, .unlock]) ++
+      by_ 1 (upToProbe ++ histOps ++ [.unlink, .bind, .listen, .execStep]))).map
+    (fun w => ((w.agents 0).pc, (w.agents 1).pc, executing (w.agents 0))) = some (.shutClose, .finalWrite, false) := by decide
 
 /-! ### witnesses / non-vacuity -/
 
@@ -173,6 +221,7 @@ example : (run (init [{ dag := 0, steps := 1, hands := 1 }])
 end BdModel.P16
 
 #print axioms BdModel.P16.C16_full_holds
+#print axioms BdModel.P16.C16_lock_exclusive
 #print axioms BdModel.P16.C16_sequential
 #print axioms BdModel.P16.C16_lock_refuses
 #print axioms BdModel.P16.C16_refused_pristine
